@@ -331,6 +331,10 @@ func (fr *frame) applyContract(con *Contract, key string, args []SV, cur *State,
 	}
 	n := vc.count("call")
 	tag := fmt.Sprintf("call%d[%s]", n, shortKey(key))
+	vc.appSeq++
+	saveApp := vc.curApp
+	vc.curApp = vc.appSeq
+	defer func() { vc.curApp = saveApp }()
 	pre := cur.clone()
 	env := &SpecEnv{vc: vc, vars: vc.bindContract(con, args, key), cur: pre, old: pre, pkg: vc.pkgOf(con), mode: vc.mode}
 	// implicit: pointer receiver non-nil
@@ -374,6 +378,18 @@ func (fr *frame) applyContract(con *Contract, key string, args []SV, cur *State,
 		}
 		for _, me := range cl.Exprs {
 			fr.havocTarget(me, env, cur)
+		}
+	}
+	if vc.fn != nil && vc.fn.Pkg != nil {
+		var ls []string
+		for h := range vc.eng.libState[vc.fn.Pkg.Pkg.Path()] {
+			if _, ok := vc.heapSort[h]; ok {
+				ls = append(ls, h)
+			}
+		}
+		sort.Strings(ls)
+		for _, h := range ls {
+			fr.havocOne(target{heap: h, whole: true, field: -1}, cur)
 		}
 	}
 	na := vc.fresh("alloc", "Int")
@@ -595,6 +611,15 @@ func (vc *VC) contractFor(key string) *Contract {
 	m := "@heap"
 	if vc.mode == ValueMode {
 		m = "@value"
+	}
+	if vc.fn != nil && vc.fn.Pkg != nil {
+		sc := "#" + strings.TrimPrefix(vc.fn.Pkg.Pkg.Path(), repoMod+"/")
+		if c := vc.eng.contracts[key+m+sc]; c != nil {
+			return c
+		}
+		if c := vc.eng.contracts[key+sc]; c != nil {
+			return c
+		}
 	}
 	if c := vc.eng.contracts[key+m]; c != nil {
 		return c
